@@ -318,6 +318,49 @@ class ConfigIsolation(Harness):
         yield 'shared-configuration-untouched', obs['shared_host'] == '' and obs['shared_port'] == 22 and obs['shared_errors'] == 0
 
 
+class WorkerConfig(Harness):
+    """the configuration a worker task audits with equals the shared configuration in EVERY setting (symbolic booleans and numbers, non-default strings) except
+    host and port, which are the task's own target."""
+    prop, ob = PROP, 'O3'
+    width = 64
+    name = 'worker-config-equals-shared-config'
+
+    def inputs(self):
+        return {'b': {k: zx.fresh_bool(k) for k in ('ssh1', 'batch', 'json', 'verbose', 'skip_rate_test')}}
+
+    def run(self, M, inp):
+        if zx.active():
+            zx.cur().stdout = []
+        shared = M.auditconf.AuditConf('', 22)
+        for k, v in inp['b'].items():
+            setattr(shared, k, bool(v))
+        # every other setting gets a non-default value
+        shared.ssh2, shared.json_print_indent, shared.debug, shared.colors, shared.client_audit, shared.timeout_set = True, True, True, False, False, True
+        shared.level, shared.threads, shared.timeout = 'warn', 7, 13.0
+        shared.target_list = ['a', 'b']
+        shared.ip_version_preference = [6, 4]
+        shared.gex_test = ''
+        shared.conn_rate_test = '3:7'
+        seen = {}
+
+        def fake_audit(out, aconf, sshv=None, print_target=False):
+            seen.update({k: v for k, v in aconf.__dict__.items()})
+            return 0
+        with AE.patched(M.ssh_audit, audit=fake_audit):
+            r = guarded(M.ssh_audit.target_worker_thread, 'tgt', 2222, shared)
+        if isinstance(r, Exc):
+            return {'exc': r}
+        diff = sorted(k for k in shared.__dict__ if k not in ('host', 'port') and not (k in seen and seen[k] == shared.__dict__[k]))
+        return {'diff': diff, 'host': seen.get('host'), 'port': seen.get('port')}
+
+    def check(self, inp, obs):
+        if 'exc' in obs:
+            yield 'no-exception', False
+            return
+        yield 'every-setting-carried-over', obs['diff'] == []
+        yield 'own-target', obs['host'] == 'tgt' and obs['port'] == 2222
+
+
 from props.c18 import MainRun as _MainRun
 
 
@@ -351,6 +394,7 @@ def tasks(tier):
                     T.append(WorkerStep(first, second, True))
                     T.append(WorkerStep(first, second, False))
     T.append(ConfigIsolation())
+    T.append(WorkerConfig())
     for shape in [('host:port', 'host'), ('host', 'host:port'), ('host:port', 'host:port', 'host'), ('host:port', 'blank', 'host', 'host')]:
         for with_p in (False, True):
             T.append(TargetLoop(shape, with_p))
@@ -364,6 +408,8 @@ def harness_by_name(name, params):
         return Footprint(p['tid'], p['editor'])
     if k == 'workerstep':
         return WorkerStep(p['first'], p['second'], p['json'])
+    if k == 'worker' and name.endswith('worker-config-equals-shared-config'):
+        return WorkerConfig()
     if k == 'targetloop':
         return TargetLoop(p['shape'], p['with_p'], p.get('nport', 2))
     return ConfigIsolation()
